@@ -11,8 +11,12 @@ Cases
            groups are re-run one by one, then with the full lists).
            quick: a random 1/16 of the (w,h,d,dh) groups; thorough: the whole box.
   full   : random states from a wider box (sizes 0..40, depths 0..4, slices 1..10) compared value by value.
-  point  : single calls with values up to 2^40 and malformed inputs (zero/negative slice counts,
-           depths, denominators, levels outside the range): value or "raised" must agree with f / f_dom.
+  point  : single calls with values up to 2^40, sizes 2^k-1 / 2^k / 2^k+1 / random for k up to 80
+           (half of them k = 53..64, where a double stops being exact) with slice counts up to 2^40,
+           a handful of states with transform depths up to 1200, and malformed inputs (zero/negative
+           slice counts, depths, denominators, levels outside the range): value or "raised" must
+           agree with f / f_dom.  The same identities are also checked on the implementation alone
+           (oracle-huge) for every k <= 80 x {-1, 0, +1} and random huge states.
 Oracle (implementation only): partition / exactly-once cover, subband dimensions against an
 independent computation and against the arrays produced by the real dwt(), the flag against the
 brute-force comparison of all slice sizes, slice_bytes >= 0 and its sum.
@@ -327,6 +331,67 @@ def dwt_shapes_check(ctx, ss, sizes):
 
 # ---------------------------------------------------------------------------------------------
 
+def huge_value(rng, kmax=80):
+    """sizes around powers of two, especially 2^53..2^64 where floating point stops being exact"""
+    k = rng.randrange(53, 65) if rng.random() < 0.5 else rng.randrange(1, kmax + 1)
+    form = rng.randrange(6)
+    if form == 0:
+        return (1 << k) - 1
+    if form == 1:
+        return 1 << k
+    if form == 2:
+        return (1 << k) + 1
+    if form == 3:
+        return rng.randrange(1 << (k - 1), 1 << k)
+    if form == 4:
+        return (1 << k) + rng.randrange(-40, 41) if k > 6 else (1 << k)
+    return rng.randrange(1, 4) * (1 << k) + rng.choice([-1, 0, 1])
+
+
+def huge_count(rng):
+    """slice counts: small, around 2^20, up to 2^40"""
+    return rng.choice([rng.randrange(1, 9), rng.randrange(1, 1 << 20), rng.randrange(1, 1 << 40), (1 << 40) - 1,
+                       (1 << rng.randrange(1, 41)) + rng.choice([-1, 0, 1])])
+
+
+def huge_point(rng, kmax=80):
+    """(state, level, comp index, sx, sy) with sizes up to 2^kmax, slice counts up to 2^40, moderate depths"""
+    d, dh = (rng.randrange(0, 9), rng.randrange(0, 9)) if rng.random() < 0.8 else (rng.randrange(0, 40), rng.randrange(0, 40))
+    nx, ny = max(1, huge_count(rng)), max(1, huge_count(rng))
+    t = (huge_value(rng, kmax), huge_value(rng, kmax), huge_value(rng, kmax), huge_value(rng, kmax), d, dh, nx, ny,
+         rng.choice([0, 1, huge_value(rng, kmax)]), max(1, rng.choice([1, 7, huge_value(rng, kmax)])))
+    l = rng.choice([0, 1, d + dh, d + dh + 1, rng.randrange(0, d + dh + 2)])
+    return t, l, rng.randrange(3), rng.choice([0, nx - 1, rng.randrange(nx)]), rng.choice([0, ny - 1, rng.randrange(ny)])
+
+
+def pow2_sweep(rng, kmax=80, depth_pairs=((0, 0), (0, 3), (2, 1), (4, 4))):
+    """2^k-1, 2^k, 2^k+1 for every k <= kmax in every size field, a few depth pairs, slice counts up to 2^40"""
+    counts = [1, 3, (1 << 20) + 1, (1 << 40) - 1, 1 << 33]
+    i = 0
+    for k in range(1, kmax + 1):
+        for delta in (-1, 0, 1):
+            for (d, dh) in depth_pairs:
+                a, b = (1 << k) + delta, (1 << k) - delta
+                nx, ny = counts[i % len(counts)], counts[(i // 2 + 1) % len(counts)]
+                t = (a, b, b, a, d, dh, nx, ny, (1 << k) + delta, max(1, (1 << (k // 2)) - delta))
+                i += 1
+                yield t, rng.randrange(0, d + dh + 2), i % 3, rng.choice([0, nx - 1, rng.randrange(nx)]), rng.choice([0, ny - 1, rng.randrange(ny)])
+
+
+def deep_points(rng, thorough=False):
+    """a handful of states with transform depths up to ~1200 (1 << 1200 is an ordinary Python/Coq integer)"""
+    pairs = [(600, 600), (1074, 0), (0, 1075), (1075, 1), (537, 538), (0, 1200), (1200, 0), (300, 17)]
+    if thorough:
+        pairs += [(a, b) for a in (0, 1, 511, 1023, 1024, 1076) for b in (0, 2, 52, 53, 1022, 1100)]
+    for (d, dh) in pairs:
+        sizes = [1, (1 << 53) + 1, rng.randrange(1, 1 << 80), (1 << (d + dh)) + 1, (1 << max(d, 1)) - 1]
+        rng.shuffle(sizes)
+        nx, ny = max(1, huge_count(rng)), max(1, huge_count(rng))
+        t = (sizes[0], sizes[1], sizes[2], sizes[3], d, dh, nx, ny, sizes[4], 7)
+        for l in (0, rng.randrange(0, d + dh + 2), d + dh + 1):
+            yield t, l, rng.randrange(3), rng.choice([0, nx - 1]), rng.choice([0, ny - 1])
+
+
 IMPORTS = ["Base.PyZ", "Gen.StateRec", "Gen.SliceSizes", "Corr.C13"]
 
 
@@ -352,7 +417,9 @@ def run(ctx):
         "box: states (w,h,dwt_depth,dwt_depth_ho,slices_x,slices_y) in 1..24^2 x 0..3^2 x 1..8^2 (quick: random 1/16; thorough: all), "
         "all eight functions on every component, level 0..dh+d+1 and slice index, compared with Gen/SliceSizes.v by checksum "
         "(mismatches re-run value by value); full: random states sizes 0..40, depths 0..4, slices 1..10 value by value; "
-        "point: single calls with values up to 2^40 and malformed inputs (exceptions must equal f_dom = false). "
+        "point: single calls with values up to 2^40, sizes 2^k-1/2^k/2^k+1/random up to 2^80 (half of them k=53..64) with slice counts up to 2^40, "
+        "a handful of states with depths up to 1200, and malformed inputs (exceptions must equal f_dom = false); "
+        "oracle-huge: the same identities on the implementation only for every k<=80 x {-1,0,+1} and random huge states. "
         "A state is non-trivial when padding or an uneven partition really happens (size not a multiple of the scale, or flag false). "
         "oracle: partition + exactly-once cover, dimensions vs independent computation and vs real dwt() array shapes, "
         "flag vs brute force, slice_bytes >= 0 and picture sum, on the implementation over the same states.")
@@ -442,8 +509,17 @@ def run(ctx):
 
     def big():
         return rng.choice([rng.randrange(0, 1 << 40), rng.randrange(0, 1 << rng.randrange(1, 41)), rng.randrange(0, 50)])
-    for i in range(npoint):
-        if i % 3 != 2:
+    deep = list(deep_points(rng, thorough=not ctx.quick))
+    if ctx.quick:
+        deep = deep[::2]  # 12 deep cases keep the 360-digit literals in coqc cheap
+    for i in range(npoint + len(deep)):
+        if i >= npoint:
+            t, l, k, sx, sy = deep[i - npoint]
+            bucket = "point-deep"
+        elif i % 4 == 3:
+            t, l, k, sx, sy = huge_point(rng)
+            bucket = "point-huge"
+        elif i % 4 != 2:
             d, dh = rng.randrange(0, 9), rng.randrange(0, 9)
             nx, ny = (rng.randrange(1, 65), rng.randrange(1, 65)) if rng.random() < 0.5 else (rng.randrange(1, 1 << 20), rng.randrange(1, 1 << 20))
             t = (big(), big(), big(), big(), d, dh, nx, ny, big(), max(1, big()))
@@ -458,13 +534,14 @@ def run(ctx):
             l = small(-2, 9)
             sx, sy = small(-2, 6), small(-2, 6)
             bucket = "point-malformed"
-        k = rng.randrange(3)
+        if bucket in ("point-big", "point-malformed"):
+            k = rng.randrange(3)
         o = observe_point(ss, t, l, k, sx, sy)
         report(ctx, t, oracle_point(ss, t, l, k, sx, sy, rng), {"level": l, "comp": COMPS[k], "sx": sx, "sy": sy})
         pcases.append("(%s, (%s, %s, %s, %s), %s)" % (cstate(t), cz(l), cz(k), cz(sx), cz(sy), clist(o, copt)))
         pmeta.append((t, l, k, sx, sy))
         raised = sum(1 for v in o if v is None)
-        ctx.count(1, key=(t, l, k, sx, sy) if (raised or bucket == "point-big") else None,
+        ctx.count(1, key=(t, l, k, sx, sy) if (raised or bucket != "point-malformed") else None,
                   bucket=bucket + ("-raises" if raised else ""))
     ctx.sample({"point": [list(pmeta[0][0])] + list(pmeta[0][1:])})
     ctx.sample({"point": [list(pmeta[2][0])] + list(pmeta[2][1:])})
@@ -473,13 +550,23 @@ def run(ctx):
         ctx.obligation("corr:slice_sizes single calls / exceptions agree with implementation", False, "corr-shard",
                        "model/implementation differ on %d point cases, e.g. %r" % (len(pbad), [pmeta[i] for i in pbad[:5]]))
 
+    # ---- oracle only: sizes around every power of two up to 2^80 (2^128 thorough), slice counts up to 2^40 --------
+    kmax = ctx.pick(80, 128)
+    sweep = list(pow2_sweep(rng, kmax, ctx.pick(((0, 0), (0, 3), (2, 1), (4, 4)),
+                                                 ((0, 0), (0, 3), (2, 1), (4, 4), (1, 0), (0, 1), (8, 8), (30, 25)))))
+    sweep += [huge_point(rng, kmax) for _ in range(ctx.pick(1500, 30000))]
+    for (t, l, k, sx, sy) in sweep:
+        report(ctx, t, oracle_point(ss, t, l, k, sx, sy, rng), {"level": l, "comp": COMPS[k], "sx": sx, "sy": sy})
+        ctx.count(1, key=(t, l, k, sx, sy), bucket="oracle-huge")
+    ctx.sample({"point": [[str(v) for v in sweep[200][0]]] + list(sweep[200][1:])})
+
     # ---- the real transform ----------------------------------------------------------------------------
     sizes = ctx.pick([(1, 1), (3, 5), (8, 8), (11, 7), (24, 13), (17, 24)],
                      [(w, h) for w in (1, 2, 3, 5, 8, 11, 16, 17, 24) for h in (1, 2, 3, 7, 8, 13, 16, 24)])
     ndwt = dwt_shapes_check(ctx, ss, sizes)
     ctx.note("dwt() shape check on %d (size, depth) combinations" % ndwt)
     ctx.trusted.append("model = Gen/SliceSizes.v, Gen/StateRec.v regenerated from /repo by the translator on this run; "
-                       "box states are compared through an order-sensitive checksum mod 2^61-1 of ~50..900 values each "
+                       "box states are compared through an order-sensitive checksum mod 2^61 of ~50..900 values each "
                        "(full/point cases value by value)")
 
 
